@@ -21,7 +21,9 @@ BUDGET = {"quick": (16, 200), "thorough": (16, 5000)}
 
 @st.composite
 def _strategy(draw):
-    spec = draw(gp.case(max_res=8, min_res=2, link_bias=True, routes=("json",)))
+    # one case in four: every other link removes an atom (the residue graph and the fragments must follow)
+    spec = draw(gp.case(max_res=8, min_res=2, link_bias=True, routes=("json",),
+                        removal_bias=draw(st.integers(0, 3)) == 0))
     spec["half"] = "gen_params"
     return spec
 
